@@ -89,7 +89,7 @@ func (cp *CIDPrimary) Get(blk types.Block) ([]byte, []byte, error) {
 	if err != nil {
 		return nil, nil, err
 	}
-	if key != nil && value != nil {
+	if key != nil {
 		return key, value, nil
 	}
 	vhook.At("cid.get.after-cache")
